@@ -254,6 +254,19 @@ func decodeString(raw string) (string, bool) {
 	return b.String(), true
 }
 
+// leftTrimLines removes the indentation of every line. gqlparser 2.5.30 computes the common
+// indentation of a block string over all lines including the first (the spec excludes the
+// first), so its value depends on the layout of the literal; the differential therefore
+// compares block strings and descriptions modulo indentation. (The astparser-side shapes
+// compare the exact BlockStringValue.)
+func leftTrimLines(s string) string {
+	lines := strings.Split(s, "\n")
+	for i, l := range lines {
+		lines[i] = strings.TrimLeft(l, " \t")
+	}
+	return strings.Join(lines, "\n")
+}
+
 // ---- view of a shape that gqlparser can be compared with ----
 
 // rootGroup orders root nodes the way gqlparser groups them.
@@ -294,12 +307,15 @@ func gview(n *sn) (*sn, bool) {
 			if v == "" {
 				return nil
 			}
-			out.V = v
+			out.V = leftTrimLines(v)
 		case "descblock":
 			if n.V == "" {
 				return nil
 			}
 			out.K = "desc"
+			out.V = leftTrimLines(n.V)
+		case "blockstring":
+			out.V = leftTrimLines(n.V)
 		case "string":
 			v, good := decodeString(n.V)
 			if !good {
